@@ -173,14 +173,6 @@ class RankRunner:
                 for v in self.live:
                     v.set_iter(self.iter)      # "the optimizer's value" for this iteration, changed between iterations
                 self.iter += 1
-                if c.get('inspect'):
-                    # read-only looking operations between two iterations (same on every rank; none implies a collective)
-                    repr(self.pre)
-                    for k_ in HP_KEYS:
-                        getattr(self.pre, k_)
-                    _ = self.pre.steps
-                    self.pre.state_dict()
-                    dict(self.pre.memory_usage())
                 self.model.train()
                 self.model.zero_grad(set_to_none=c.get('zero_to_none', True))
                 for micro in range(c.get('accum', 1)):
@@ -211,6 +203,15 @@ class RankRunner:
                 simdist.set_phase(f'op{i}:train/step')
                 self.pre.step()
                 simdist.set_phase(f'op{i}:train/after')
+                if c.get('inspect'):
+                    # read-only looking operations right after the step, i.e. BEFORE the training loop changes any live state the
+                    # hyper-parameter callables read (same on every rank; none implies a collective)
+                    repr(self.pre)
+                    for k_ in HP_KEYS:
+                        getattr(self.pre, k_)
+                    _ = self.pre.steps
+                    self.pre.state_dict()
+                    dict(self.pre.memory_usage())
                 rec['after'] = flat_grads(self.model)
                 rec['steps'] = self.pre.steps
                 if 'params' in self.observe:
